@@ -1,11 +1,14 @@
 #!/bin/sh
 # usage: revert_fix.sh <pattern in commit subject> -- <command ...>
-# Temporarily reverse-applies one "fix:" commit of /repo in the working tree, runs the command, restores.
+# Reverse-applies one "fix:" commit in a SCRATCH COPY of /repo and runs the command against it (AY_REPO),
+# so /repo itself is never touched. The copy is removed afterwards.
 pat="$1"; shift; shift
 c=$(git -C /repo log --format='%h %s' | grep -i -- "$pat" | head -1 | cut -d' ' -f1)
 [ -n "$c" ] || { echo "no commit matches $pat"; exit 2; }
-git -C /repo show "$c" | git -C /repo apply -R || { echo "cannot reverse-apply $c"; exit 2; }
-echo "== reverted $c: $(git -C /repo log -1 --format=%s $c)"
-"$@"; rc=$?
-git -C /repo checkout -- . 
+d=$(mktemp -d /tmp/mutrepo.XXXXXX)
+git -C /repo worktree add -q --detach "$d/repo" HEAD || exit 2
+git -C /repo show "$c" | git -C "$d/repo" apply -R || { echo "cannot reverse-apply $c"; git -C /repo worktree remove --force "$d/repo"; rm -rf "$d"; exit 2; }
+echo "== reverted $c in scratch copy: $(git -C /repo log -1 --format=%s $c)"
+AY_REPO="$d/repo" "$@"; rc=$?
+git -C /repo worktree remove --force "$d/repo"; rm -rf "$d"
 exit $rc
